@@ -97,13 +97,27 @@ async fn episode(p: &EpParams) -> EpReport {
         let mut pulls = 0;
         if backlog == 0 {
             if blocking {
-                // an empty subscription: the pull waits for its 5-minute limit
+                // an empty subscription: the pull waits for its 5-minute limit - no less, however
+                // often it is woken in between without getting anything (empty publishes)
                 let t0 = seq.now();
+                {
+                    let (cx, t2) = (Cx::new(&w, 8), t.clone());
+                    let (d1, d2) = (rng.range(20, 140), rng.range(10, 100));
+                    tokio::spawn(async move {
+                        tokio::time::sleep(Duration::from_secs(d1)).await;
+                        let _ = cx.publish(&t2, &[]).await;
+                        tokio::time::sleep(Duration::from_secs(d2)).await;
+                        let _ = cx.publish(&t2, &[]).await;
+                    });
+                }
                 let got = seq.pull(&s, limit, false).await;
                 let dt = seq.now() - t0;
                 rep.obs("empty_blocking_pull_s", (dt / SEC) as i64);
                 if !got.is_empty() {
                     rep.viol("C15", "C15:messages-from-nowhere", "pull on an empty subscription returned messages");
+                }
+                if got.is_empty() && dt < 300 * SEC {
+                    rep.viol("C15", "C15:empty-before-wait-limit", format!("blocking Pull on an empty subscription returned empty after {} s (two empty wake-ups in between)", dt / SEC));
                 }
                 if dt > 301 * SEC {
                     rep.viol("C07", "C07:Q-term:blocking-pull-over-limit", format!("blocking Pull on an empty subscription returned after {} s", dt / SEC));
